@@ -216,6 +216,7 @@ fn main() {
     let mut out = Out::new(a.get("out").map(|s| s.as_str()).unwrap_or("/verif/.work/initfs"));
     if let Some(f) = a.get("cases") {
         for line in std::fs::read_to_string(f).unwrap().lines() {
+            fbrh::util::crumb(line);
             if line.trim().is_empty() { continue; }
             let o = exec(line, &mut out);
             out.case(line, &o);
@@ -241,6 +242,7 @@ fn main() {
             _ => format!("fs=ovl import={} wb={} no_open={} no_opendir={} kp={} dax={} cap={}", r.below(2), r.below(2), r.below(2), r.below(2), r.below(2), r.below(2), gen_cap(&mut r)),
         };
         out.stat(&format!("fs:{}", &line[3..6]));
+        fbrh::util::crumb(&line);
         let o = exec(&line, &mut out);
         out.case(&line, &o);
     }
